@@ -18,7 +18,9 @@ fn checksum(b: &[u8]) -> u64 { b.iter().fold(1469598103934665603u64, |h, x| (h ^
 fn body_of(l: usize) -> Vec<u8> { (0..l).map(|i| (i * 31 + 7) as u8).collect() }
 
 struct Server { addr: SocketAddr, _permit: Permit, _exec: Arc<Executor>, _dir: TempDir, log: Log, files: TempDir }
-fn start(small: usize) -> Server {
+fn start(small: usize) -> Server { start2(small, true) }
+/// `cache`: whether the server is given a directory for large request bodies
+fn start2(small: usize, cache: bool) -> Server {
     safina::timer::start_timer_thread();
     let permit = Permit::new();
     let exec = Executor::new(2, 4).unwrap();
@@ -44,12 +46,19 @@ fn start(small: usize) -> Server {
                 std::fs::write(&p, body_of(actual)).unwrap();
                 Response::new(200).with_body(ResponseBody::File(p, declared))
             }
+            Some("file5") => { // the same with status 503 (close = true)
+                let declared: u64 = seg[2].parse().unwrap(); let actual: usize = seg[3].parse().unwrap();
+                let p = files_path.join(format!("g{declared}-{actual}"));
+                std::fs::write(&p, body_of(actual)).unwrap();
+                Response::new(503).with_body(ResponseBody::File(p, declared))
+            }
             Some("code") => Response::text(seg[2].parse().unwrap(), "x"),
             _ => Response::text(200, "ok"),
         }
     };
-    let (addr, _stopped) = exec.block_on(HttpServerBuilder::new().listen_addr(socket_addr_127_0_0_1_any_port()).max_conns(100)
-        .small_body_len(small).receive_large_bodies(dir.path()).permit(permit.new_sub()).spawn(handler)).unwrap();
+    let b = HttpServerBuilder::new().listen_addr(socket_addr_127_0_0_1_any_port()).max_conns(100).small_body_len(small);
+    let b = if cache { b.receive_large_bodies(dir.path()) } else { b };
+    let (addr, _stopped) = exec.block_on(b.permit(permit.new_sub()).spawn(handler)).unwrap();
     Server { addr, _permit: permit, _exec: exec, _dir: dir, log, files }
 }
 fn exchange(s: &Server, send: &[u8], pause_after: Option<usize>) -> Vec<u8> {
@@ -66,8 +75,11 @@ fn statuses(out: &[u8]) -> Vec<u16> {
     t.match_indices("HTTP/1.1 ").filter_map(|(i, _)| t[i + 9..].get(..3).and_then(|c| c.parse().ok())).collect()
 }
 /// C09: one upload of L bytes against limit M on a server with threshold S
-fn upload(s: &Server, small: usize, m: u64, l: usize, declared: bool, split: bool) -> Option<String> {
-    let desc = format!("upload S={small} M={m} L={l} declared={declared} split_head_body={split}");
+fn upload(s: &Server, small: usize, m: u64, l: usize, declared: bool, split: bool) -> Option<String> { upload2(s, small, m, l, declared, split, false) }
+/// `nocache`: the server has no directory for large bodies -- a body that has to be fetched may then be refused with a 500
+/// (a configuration limit the property does not speak about), but a body over the handler's limit is still never accepted
+fn upload2(s: &Server, small: usize, m: u64, l: usize, declared: bool, split: bool, nocache: bool) -> Option<String> {
+    let desc = if nocache { format!("upload S={small} M={m} L={l} declared={declared} split_head_body={split} nocache=1") } else { format!("upload S={small} M={m} L={l} declared={declared} split_head_body={split}") };
     let body = body_of(l);
     let head = if declared { format!("POST /m/{m} HTTP/1.1\r\ncontent-length: {l}\r\n\r\n") } else { format!("POST /m/{m} HTTP/1.1\r\n\r\n") };
     s.log.lock().unwrap().clear();
@@ -79,6 +91,7 @@ fn upload(s: &Server, small: usize, m: u64, l: usize, declared: bool, split: boo
     let empty_decl = declared && l == 0;
     let accept = in_memory || empty_decl || (l as u64) <= m;
     let final_status = st.iter().copied().filter(|c| *c != 100).collect::<Vec<_>>();
+    if nocache && !(in_memory || empty_decl) && final_status == vec![500] { return None; }
     if accept {
         if final_status != vec![200] { return Some(format!("{desc} expected=200 actual={st:?}")); }
         let last = log.last().cloned();
@@ -93,10 +106,11 @@ fn upload(s: &Server, small: usize, m: u64, l: usize, declared: bool, split: boo
     None
 }
 /// C08: response body file shorter than declared: the client sees a prefix of the correct response, one status line
-fn short_file(s: &Server, declared: usize, actual: usize) -> Option<String> {
-    let desc = format!("bodyfile declared={declared} actual={actual}");
-    let out = exchange(s, format!("GET /file/{declared}/{actual} HTTP/1.1\r\n\r\n").as_bytes(), None);
-    let mut correct = format!("HTTP/1.1 200 OK\r\ncontent-length: {declared}\r\n\r\n").into_bytes();
+fn short_file(s: &Server, declared: usize, actual: usize) -> Option<String> { short_file2(s, declared, actual, false) }
+fn short_file2(s: &Server, declared: usize, actual: usize, five: bool) -> Option<String> {
+    let desc = if five { format!("bodyfile declared={declared} actual={actual} status=503") } else { format!("bodyfile declared={declared} actual={actual}") };
+    let out = exchange(s, format!("GET /{}/{declared}/{actual} HTTP/1.1\r\n\r\n", if five { "file5" } else { "file" }).as_bytes(), None);
+    let mut correct = if five { format!("HTTP/1.1 503 Service Unavailable\r\nconnection: close\r\ncontent-length: {declared}\r\n\r\n").into_bytes() } else { format!("HTTP/1.1 200 OK\r\ncontent-length: {declared}\r\n\r\n").into_bytes() };
     correct.extend_from_slice(&body_of(declared));
     if actual >= declared { return if out == correct { None } else { Some(format!("{desc} expected=complete-response actual={} bytes, statuses {:?}", out.len(), statuses(&out))) }; }
     // either a prefix of the one correct serialisation reached the client (then nothing else), or -- no byte of it having
@@ -131,8 +145,8 @@ fn main() {
     if args.len() >= 3 && args[1] == "replay" {
         let w = args[2..].join(" ");
         let n = nums(&w);
-        let r = if w.starts_with("upload") { let s = start(n[0] as usize); upload(&s, n[0] as usize, n[1], n[2] as usize, w.contains("declared=true"), w.contains("split_head_body=true")) }
-            else if w.starts_with("bodyfile") { let s = start(100); short_file(&s, n[0] as usize, n[1] as usize) }
+        let r = if w.starts_with("upload") { let nc = w.contains("nocache=1"); let s = start2(n[0] as usize, !nc); upload2(&s, n[0] as usize, n[1], n[2] as usize, w.contains("declared=true"), w.contains("split_head_body=true"), nc) }
+            else if w.starts_with("bodyfile") { let s = start(100); short_file2(&s, n[0] as usize, n[1] as usize, w.contains("status=503")) }
             else { let s = start(100); let codes: Vec<u16> = n.iter().map(|x| *x as u16).collect(); pipeline(&s, &codes) };
         match r { Some(m) => { println!("WITNESS {m}"); std::process::exit(1) } None => { println!("OK witness no longer fails"); std::process::exit(0) } }
     }
@@ -152,9 +166,18 @@ fn main() {
         }
         if small == 100 {
             for (d, a) in [(2000usize, 2000usize), (2000, 0), (2000, 1), (2000, 1000), (2000, 1999), (70000, 69999), (1, 0)] { n += 1; if let Some(w) = short_file(&s, d, a) { if found.len() < 6 { found.push(w) } } }
+            for (d, a) in [(2000usize, 2000usize), (2000, 0), (2000, 1000), (100, 10)] { n += 1; if let Some(w) = short_file2(&s, d, a, true) { if found.len() < 6 { found.push(w) } } }
             for codes in [vec![200u16], vec![200, 200, 200], vec![200, 404, 200], vec![500, 200], vec![200, 204, 503, 200], vec![299, 399, 400]] { n += 1; if let Some(w) = pipeline(&s, &codes) { if found.len() < 6 { found.push(w) } } }
         }
         let _ = &s.files;
+    }
+    // a server without a directory for large bodies: limits at and around the in-memory threshold
+    for small in [100usize, 1000] {
+        let s = start2(small, false);
+        for m in [0u64, 1, small as u64 - 1, small as u64, small as u64 + 1] { for l in [0usize, 1, m as usize, m as usize + 1, small, small + 1, 3 * small] { for declared in [true, false] {
+            n += 1;
+            if let Some(w) = upload2(&s, small, m, l, declared, false, true) { if found.len() < 6 { found.push(w) } }
+        }}}
     }
     println!("EVALUATED {n}");
     for f in &found { println!("WITNESS {f}"); }
